@@ -60,7 +60,16 @@ def rule_consing(ctx, rep, config="c-lib", tag=""):
     n = 0
     for (f, c, tab, res) in _lookup_sites(p):
         what = CONSING.get(tab) or CONSING_FIELDS.get(tab)
-        if what is None or not res:
+        if what is None:
+            continue
+        if not res:
+            al0 = set([c.id] + [u.id for u in f.uses().get(c.id, []) if u.op == "bitcast"])
+            st0 = [s_ for s_ in f.all_insts() if s_.op == "store" and strip_casts(f, s_.ops[1]).get("v") in al0]
+            if st0:
+                n += 1
+                rep.violation("R27-consing", tag + "%s/%s" % (f.name, tab.split(".")[-1]), "an element is stored into an entry of the table of %s that the lookup did not "
+                              "reserve: the table does not count it, never grows, and once every entry is taken a lookup that fails does not return" % what,
+                              where=c.where(), witness=[c.where(), st0[0].where()])
             continue
         n += 1
         rep.cover(p, [f.name])
